@@ -148,7 +148,17 @@ func discharge(o *Obligation, dir string, timeout int, wantModel bool) {
 		}
 		ch := make(chan r, 3)
 		go func() { a, b, c := runSolver(solvers[0], timeout, f1); ch <- r{a, c, "z3-new(mbqi)", b} }()
-		go func() { a, b, c := runSolver(solvers[1], timeout, f1); ch <- r{a, c, "z3", b} }()
+		// z3 4.8.12 was caught answering unsat on a satisfiable set of string assertions (see DESIGN.md): it
+		// only takes part when the query contains no string theory
+		usesStrings := strings.Contains(q, "(str.") || strings.Contains(q, " String")
+		go func() {
+			if usesStrings {
+				ch <- r{"unknown", "", "z3(skipped: string theory)", 0}
+				return
+			}
+			a, b, c := runSolver(solvers[1], timeout, f1)
+			ch <- r{a, c, "z3", b}
+		}()
 		go func() { a, b, c := runSolver(solvers[2], timeout, f2); ch <- r{a, c, "cvc5", b} }()
 		var got *r
 		maxdt := 0.0
